@@ -64,3 +64,34 @@ def topo(st):
                 if need[r] == 0:
                     ready.append(r)
     return order
+
+
+def topo_natural(st):
+    """Topological order when a port that has a driver is an ordinary signal (only undriven ports and state elements are
+    sources) - for the clause that judges driven ports under the plain reading of "evaluate the netlist gate by gate"."""
+    nodes, lines = st['nodes'], st['lines']
+    io = set(st['io'])
+    cut = set()
+    for i in st['snodes']:
+        driven = i in io and any(x >= 0 for x in nodes[i]['ins'])
+        if not driven:
+            cut.add(i)
+    n = len(nodes)
+    need = [0 if i in cut else sum(1 for x in nd['ins'] if x >= 0) for i, nd in enumerate(nodes)]
+    ready = [i for i in range(n) if need[i] == 0]
+    order, seen = [], set()
+    while ready:
+        i = ready.pop(0)
+        if i in seen:
+            continue
+        seen.add(i)
+        order.append(i)
+        for x in nodes[i]['outs']:
+            if x >= 0:
+                r = lines[x]['rdr']
+                if r in cut:
+                    continue
+                need[r] -= 1
+                if need[r] == 0:
+                    ready.append(r)
+    return order
